@@ -144,6 +144,14 @@ def run(chk: Check):
         n = 3 * len(cfg["lineup"]) + 1
         comps = [[(1, "restore")] * (n - 1) + [(1, "end")]] + [[(j, "restore"), (n - j, "end")] for j in range(1, n)]
         check_cfg(chk, cfg, n, comps, "stateful")
+    # every built-in loss with non-default options, a loss-driven sampler, a restore at every boundary: the loss object goes through pickle
+    # between any two batches and must keep computing the same values
+    opt_losses = [l for l in twin.LOSSES if "_" in l]
+    for name in (opt_losses if chk.tier == "thorough" else rng.sample(opt_losses, 3) + ["msm_inv"]):
+        cfg = {"lineup": [("HaltonSampler", 3, None), ("BestBatchSampler", 2, None)], "dims": 2, "loss": name, "ensemble": rng.choice([1, 3]),
+               "seed": rng.randrange(10 ** 6), "n_jobs": 1}
+        n = 5
+        check_cfg(chk, cfg, n, [[(1, "restore")] * (n - 1) + [(1, "end")], [(2, "restore"), (n - 2, "end")]], "loss_options")
     # all nine samplers, sampled compositions of a longer run
     for i in range(4 if chk.tier == "quick" else 40):
         cfg = gen_cfg(rng, k_samplers=9)
